@@ -1137,6 +1137,91 @@ def gen_lifecycle(tree):
             "def lifecycleLoops : List (Nat × String × List (String × String)) := [\n" + body + "\n]\n\nend Boario.Gen\n")
 
 
+def gen_recover(tree):
+    """`EventTracker.recover`: for each ledger, the recovery function evaluated, at which elapsed time, and to how many decimals
+    the result is rounded; and how the number of decimals is obtained"""
+    tracker = find_class(tree, "EventTracker")
+    fn = find_func(tracker, "recover")
+    names = {"current_temporal_unit": "t", "occurrence": "occ", "duration": "dur"}
+
+    def iexpr(e):
+        if isinstance(e, ast.Constant) and isinstance(e.value, int) and not isinstance(e.value, bool):
+            return f"({e.value} : Int)"
+        if isinstance(e, ast.Attribute) and e.attr in names:
+            return names[e.attr]
+        if isinstance(e, ast.Name) and e.id in local_el:
+            return local_el[e.id]
+        if isinstance(e, ast.BinOp) and isinstance(e.op, (ast.Add, ast.Sub, ast.Mult)):
+            op = {ast.Add: "+", ast.Sub: "-", ast.Mult: "*"}[type(e.op)]
+            return f"({iexpr(e.left)} {op} {iexpr(e.right)})"
+        raise Untranslatable(ast.unparse(e))
+
+    local_el = {}
+    rows, defs, prec = [], [], ("unknown", 0)
+    for node in ast.walk(fn):
+        if isinstance(node, ast.Assign) and len(node.targets) == 1 and isinstance(node.targets[0], ast.Name):
+            nm, v = node.targets[0].id, node.value
+            if nm == "precision":
+                # int(math.log10(<x>.monetary_factor)) + k
+                if isinstance(v, ast.BinOp) and isinstance(v.op, ast.Add) and isinstance(v.right, ast.Constant) \
+                        and isinstance(v.left, ast.Call) and getattr(v.left.func, "id", "") == "int" and len(v.left.args) == 1 \
+                        and isinstance(v.left.args[0], ast.Call) and attr_chain(v.left.args[0].func) == "math.log10":
+                    prec = (ast.unparse(v.left.args[0].args[0]), int(v.right.value))
+                else:
+                    prec = ("untranslatable: " + ast.unparse(v), 0)
+            else:
+                try:
+                    local_el[nm] = iexpr(v)
+                except Untranslatable:
+                    pass
+    k = 0
+    for node in sorted((n_ for n_ in ast.walk(fn) if isinstance(n_, ast.Assign)), key=lambda n_: n_.lineno):
+        if isinstance(node, ast.Assign) and len(node.targets) == 1 and isinstance(node.targets[0], ast.Attribute) \
+                and isinstance(node.value, ast.Call) and isinstance(node.value.func, ast.Attribute) and node.value.func.attr == "round" \
+                and isinstance(node.value.func.value, ast.Call):
+            ledger = node.targets[0].attr
+            inner = node.value.func.value
+            fname = inner.func.attr if isinstance(inner.func, ast.Attribute) else ast.unparse(inner.func)
+            try:
+                el = iexpr(inner.args[0]) if len(inner.args) == 1 and not inner.keywords else "untranslatable_elapsed"
+            except Untranslatable as u:
+                el = f"(untranslatable_elapsed {lstr(str(u))})"
+            arg = node.value.args[0] if node.value.args else None
+            rnd = "precision" if isinstance(arg, ast.Name) and arg.id == "precision" else (str(arg.value) if isinstance(arg, ast.Constant) else "unknown")
+            defs.append(f"/-- elapsed time given to `{fname}` -/\ndef recoverElapsed{k} (t occ dur : Int) : Int := {el}\n")
+            rows.append((ledger, fname, k, rnd))
+            k += 1
+    body = ",\n".join(f"  ({lstr(a)}, {lstr(b)}, {c}, {lstr(d_)})" for a, b, c, d_ in rows)
+    return ("/- GENERATED by harness/translate.py: EventTracker.recover. Do not edit. -/\nnamespace Boario.Gen\n\n" + "\n".join(defs) +
+            "\n/-- (ledger attribute, recovery function evaluated, ordinal of its elapsed-time expression, decimals kept: `precision` or a literal) -/\n"
+            "def recoverLedgers : List (String × String × Nat × String) := [\n" + body + "\n]\n\n"
+            "/-- `precision = int(math.log10(<source>)) + <offset>` -/\n"
+            f"def recoverPrecision : String × Nat := ({lstr(prec[0])}, {prec[1]})\n\n"
+            "/-- every `precision = int(math.log10(<source>)) + <offset>` of the tracker's ledger updates: (function, source, offset) -/\n"
+            "def precisionSources : List (String × String × Nat) := [\n" + ",\n".join(
+                f"  ({lstr(f_)}, {lstr(src_)}, {off_})" for f_, src_, off_ in precision_sources(tracker)) + "\n]\n\nend Boario.Gen\n")
+
+
+def precision_sources(tracker):
+    out = []
+    for fname in ("recover", "receive_indus_rebuilding", "receive_house_rebuilding"):
+        fn = find_func(tracker, fname)
+        found = False
+        for node in sorted((n_ for n_ in ast.walk(fn) if isinstance(n_, ast.Assign)), key=lambda n_: n_.lineno):
+            if len(node.targets) == 1 and isinstance(node.targets[0], ast.Name) and node.targets[0].id == "precision":
+                v = node.value
+                found = True
+                if isinstance(v, ast.BinOp) and isinstance(v.op, ast.Add) and isinstance(v.right, ast.Constant) \
+                        and isinstance(v.left, ast.Call) and getattr(v.left.func, "id", "") == "int" and len(v.left.args) == 1 \
+                        and isinstance(v.left.args[0], ast.Call) and attr_chain(v.left.args[0].func) == "math.log10":
+                    out.append((fname, ast.unparse(v.left.args[0].args[0]), int(v.right.value)))
+                else:
+                    out.append((fname, "untranslatable: " + ast.unparse(v), 0))
+        if not found:
+            out.append((fname, "no precision assignment found", 0))
+    return out
+
+
 def regenerate():
     GEN.mkdir(parents=True, exist_ok=True)
     trees = {}
@@ -1150,6 +1235,7 @@ def regenerate():
         "Loop.lean": gen_loop(trees["simulation"]),
         "Aggregation.lean": gen_aggregation(trees["simulation"]),
         "Lifecycle.lean": gen_lifecycle(trees["simulation"]),
+        "Recover.lean": gen_recover(trees["simulation"]),
         "Formulas.lean": gen_formulas(trees, ast.parse((REPO / "boario" / "utils" / "recovery_functions.py").read_text())),
     }
     changed = []
